@@ -44,6 +44,16 @@ func (bg *blockGen) leaf(allowSpawn bool) string {
 		n = 14
 	}
 	k := bg.g.Intn(n)
+	if allowSpawn && bg.g.Chance(1, 12) {
+		// a wait cycle: the thread is handed its own thread object and waits
+		// for itself, while this code waits for the thread; only the context
+		// can end either wait
+		c := bg.fresh("c")
+		t := bg.fresh("t")
+		fmt.Fprintf(&bg.prelude, "%s := chan(1)\n", c)
+		bg.Shapes = append(bg.Shapes, "wait-cycle")
+		return fmt.Sprintf("%s := spawn(func() { me := <-%s; me.wait(); for { tick() } }); %s <- %s; %s.wait()", t, c, c, t, t)
+	}
 	switch k {
 	case 10:
 		c := bg.fresh("c")
@@ -202,6 +212,7 @@ func (bg *blockGen) goroutine(depth int) string {
 type blockProg struct {
 	Src           string
 	EntrySrc      string // variant: prelude+function, called through risor.Call
+	EntrySrcTop   string // same, with the goroutines started by the module-level code (risor.Call runs that under the same context)
 	MainReturns   bool   // main terminates by itself; only goroutines run on
 	SharedSenders bool
 	NGoroutines   int
@@ -246,6 +257,22 @@ func genBlock(g *sim.Stream) *blockProg {
 	}
 	p.Src = bg.prelude.String() + main.String()
 	p.EntrySrc = bg.prelude.String() + "func entry() {\n" + main.String() + "}\n"
+	if p.NGoroutines > 0 && !p.SharedSenders && g.Bool() {
+		// the goroutines are started by the module-level code (which risor.Call
+		// runs first), only the rest is inside entry()
+		lines := strings.SplitAfter(main.String(), "\n")
+		var top, inner strings.Builder
+		for _, l := range lines {
+			if strings.HasPrefix(l, "go ") || strings.HasPrefix(l, "spawn(") || (len(l) > 0 && strings.Contains(l, ".spawn()") && !strings.Contains(l, ":=")) {
+				top.WriteString(l)
+			} else {
+				inner.WriteString(l)
+			}
+		}
+		if top.Len() > 0 {
+			p.EntrySrcTop = bg.prelude.String() + top.String() + "func entry() {\n" + inner.String() + "}\n"
+		}
+	}
 	p.Defers = bg.Defers
 	p.Depth = bg.Depth
 	p.Shapes = bg.Shapes
@@ -396,7 +423,11 @@ func runC06(rc *fw.RunCtx) {
 	s.Go("main", "main", func() {
 		guard(out, func() (object.Object, error) {
 			if api == 2 {
-				ast, err := parser.Parse(context.Background(), prog.EntrySrc)
+				esrc := prog.EntrySrc
+				if prog.EntrySrcTop != "" {
+					esrc = prog.EntrySrcTop
+				}
+				ast, err := parser.Parse(context.Background(), esrc)
 				if err != nil {
 					return nil, fmt.Errorf("harness: parse: %w", err)
 				}
